@@ -1,5 +1,6 @@
 """C13 — VFS: the in-memory directory tree behaves like a POSIX file
-hierarchy (reference model VFSDir.tla)."""
+hierarchy (reference model specs/VFSDir.tla, judge specs/VFSDirTrace.tla,
+drivers harness/vfsdir)."""
 import glob
 import json
 import os
@@ -11,8 +12,11 @@ DEPS = ["VFSDir.tla"]
 TRACE = "VFSDirTrace.tla"
 TCFG = "Trace_VFSDir.cfg"
 
+QUICK_CFGS = ["MC_VFSDir.cfg", "MC_VFSDir_bulk.cfg", "MC_VFSDir_ci.cfg", "MC_VFSDir_list.cfg"]
+THOROUGH_CFGS = QUICK_CFGS + ["MC_VFSDir_thorough.cfg"]
 
-def _drive(ctx, binary, test, label, env, timeout=1800):
+
+def _drive(ctx, binary, test, label, env, timeout=2400):
     out = ctx.sub(label)
     rc, o = vlib.run_driver(binary, test, out, ctx.seed, env=env, timeout=timeout)
     if rc != 0:
@@ -20,28 +24,72 @@ def _drive(ctx, binary, test, label, env, timeout=1800):
     return out
 
 
-def _validate(ctx, out, label, timeout=3000):
+def _validate(ctx, out, label, timeout=3600):
     return vlib.validate_traces(ctx, out + "/trace.ndjson", TRACE, TCFG, DEPS, label,
-                                classify=vlib.classify_for(ctx.prop), timeout=timeout)
+                                classify=vlib.classify_for(ctx.prop), timeout=timeout,
+                                max_failures=4)
+
+
+def _behaviours(ctx, num, depth):
+    """spec -> code: behaviours of the specification (tlc -simulate)."""
+    wd = ctx.sub("sim")
+    vlib.copy_specs(wd, DEPS + ["VFSDirSim.tla", "MC_VFSDir_sim.cfg"])
+    cfg = open(os.path.join(wd, "MC_VFSDir_sim.cfg")).read().replace("Depth = 30", "Depth = %d" % depth)
+    open(os.path.join(wd, "MC_VFSDir_sim.cfg"), "w").write(cfg)
+    r = vlib.tlc_run(wd, "VFSDirSim.tla", "MC_VFSDir_sim.cfg", workers=1, timeout=2400,
+                     simulate="num=%d" % num, depth=depth + 1, seed=ctx.seed)
+    files = glob.glob(os.path.join(wd, "beh_*.ndjson"))
+    if not r.ok or not files:
+        raise vlib.Infra("behaviour generation failed (%s):\n%s" % (r.violated or r.error, r.output[-2000:]))
+    ctx.cov["tlc_runs"].append({"cfg": "MC_VFSDir_sim.cfg", "simulate": num, "depth": depth,
+                                "generated": r.generated, "wall_s": round(r.wall, 1), "ok": True})
+    vlib.log("TLC simulate: %d behaviours of %d calls in %.1fs" % (len(files), depth, r.wall))
+    return wd
 
 
 def run(ctx):
     quick = ctx.quick()
-    # 1. design check: the reference hierarchy itself has the C13 properties
-    cfgs = []
-    for cfg in cfgs:
-        vlib.design_check(ctx, "VFSDir.tla", cfg, [], timeout=3000)
-    # 2. conformance of the real hierarchy: seeded random histories
+    # 1. design check: the reference hierarchy has the C13 properties
+    #    (map/list agreement, removed directories are empty and accept
+    #    nothing, link counts, tree shape, change counter, cookie stability,
+    #    pagination under every interleaving of mutations between pages).
+    #    The design check does not depend on /repo; VERIF_C13_SKIP_DESIGN=1
+    #    skips it while iterating over mutants of the real code.
+    if os.environ.get("VERIF_C13_SKIP_DESIGN") != "1":
+        for cfg in (QUICK_CFGS if quick else THOROUGH_CFGS):
+            vlib.design_check(ctx, "VFSDir.tla", cfg, [], timeout=3600)
+
     binary = vlib.go_build_test(ctx, "vfsdir")
+    extra = {}
+
+    # 2. code -> spec: seeded random histories (both handle allocators, both
+    #    normalizers, hidden-files matcher on/off, paginated listings
+    #    interleaved with mutations, removed directories kept in use)
     out = _drive(ctx, binary, "TestRandom", "rand",
-                 {"VERIF_N": 48 if quick else 400, "VERIF_STEPS": 60 if quick else 100})
+                 {"VERIF_N": 48 if quick else 320, "VERIF_STEPS": 60 if quick else 100})
     _validate(ctx, out, "random")
     ctx.cov["samples"] += vlib.sample_lines(out + "/trace.ndjson", 3, maxlen=600)
+
+    # 3. every call from several seed states, and all sequences of two
+    #    calls (quick: a seed-dependent quarter of the first calls)
+    env = {"VERIF_DEPTH": 2, "VERIF_STRIDE": 4 if quick else 1, "VERIF_WIDE": 0}
+    out2 = _drive(ctx, binary, "TestEnumerate", "enum", env)
+    _validate(ctx, out2, "enum")
+    extra["enumeration"] = json.load(open(out2 + "/meta.json"))
+
+    # 4. spec -> code: behaviours generated from the specification are
+    #    replayed on the real hierarchy and validated like any other trace
+    wd = _behaviours(ctx, 16 if quick else 120, 25 if quick else 40)
+    out3 = _drive(ctx, binary, "TestReplay", "replay", {"VERIF_BEH_DIR": wd})
+    _validate(ctx, out3, "replay")
+    extra["replay"] = json.load(open(out3 + "/meta.json"))
+
     return vlib.finish(
         ctx,
-        rule="TLC explores the reference hierarchy VFSDir.tla exhaustively for small universes; the real NewInMemoryPrepopulatedDirectory is driven by seeded random histories; TLC validates every recorded status, reply and projected state against the set of outcomes the reference permits.",
+        rule="TLC explores the reference hierarchy VFSDir.tla exhaustively for small universes (kernel-facing calls, bulk calls, case-insensitive names with renames into the own subtree, Listing process with resumable cookie) and checks the C13 invariants and action properties. The real NewInMemoryPrepopulatedDirectory (real pool-backed file allocator, symlink factory, FUSE- and NFS-style handle allocators, both normalizers, hidden-files matcher) is driven by seeded random histories, by an enumeration of all single calls and pairs of calls from four seed states, and by replaying behaviours generated from the specification; every call is logged with status, reply and the projection of all known directories (public interface + state hook); TLC computes the set of outcomes the reference permits and judges status, resulting contents, cookies, change counters, ChangeInfo, listings and link counts.",
         explanation="reference-model conformance of in_memory_prepopulated_directory.go",
         exhaustive=True,
+        extra=extra,
     )
 
 
